@@ -22,9 +22,53 @@ def loop_spec(I, node):
     return lab, spec
 
 
+def exec_concrete_loop(I, s, st, is_for):
+    """concrete mode: the loop is simply executed"""
+    outs = []
+    cur = st
+    count = 0
+    if is_for:
+        it = I.ev(s.iter, cur)
+        if isinstance(it, RangeV):
+            items = list(range(int(it.lo), int(it.hi)))
+        elif isinstance(it, TupleV):
+            items = list(it.items)
+        else:
+            raise ToolLimit("concrete for over %r" % (it,))
+    while True:
+        if is_for:
+            if count >= len(items):
+                break
+            I.assign(s.target, items[count], cur, s)
+        else:
+            c = truth(I.ev(s.test, cur))
+            if not isinstance(c, bool):
+                raise ToolLimit("non-concrete loop guard in concrete mode")
+            if not c:
+                break
+        count += 1
+        if count > 200000:
+            raise ToolLimit("concrete loop does not terminate")
+        res = I.exec_block(s.body, cur)
+        nxt = None
+        for k, s2, v in res:
+            if k in ("fall", "cont"):
+                nxt = s2
+            elif k == "brk":
+                return [("fall", s2, None)]
+            else:
+                return [(k, s2, v)]
+        if nxt is None:
+            return []
+        cur = nxt
+    return [("fall", cur, None)]
+
+
 def exec_for(I, s, st):
     if s.orelse:
         raise ToolLimit("for/else")
+    if I.ctx.concrete:
+        return exec_concrete_loop(I, s, st, True)
     it = I.ev(s.iter, st)
     if isinstance(it, Opaque):
         # iteration over an opaque iterable (np.sort(np.unique(..))): body is executed zero or more times; havoc what it assigns
@@ -139,6 +183,8 @@ def exec_opaque_for(I, s, st, it):
 def exec_while(I, s, st):
     if s.orelse:
         raise ToolLimit("while/else")
+    if I.ctx.concrete:
+        return exec_concrete_loop(I, s, st, False)
     lab, spec = loop_spec(I, s)
 
     def cond(state):
@@ -212,6 +258,8 @@ def cut_loop(I, s, st, lab, spec, cond, pre_body, post_body, at_head, auto_inv, 
             if val is None or isinstance(val, (str, Opaque)):
                 continue
             raise ToolLimit("loop %s: cannot havoc local %s of value %r" % (lab, n, val))
+        if so == "Int" and n not in extra_havoc and not int_preserving(s.body, n):
+            so = "Real"        # e.g. `HIest = 0` before the loop but real values assigned inside: the havocked value must be a real
         nv = ctx.fresh(n, so)
         hv.locals[n] = MaybeUnbound(cur.cond, nv) if was_mu else nv
     for base in subs:
@@ -412,6 +460,50 @@ def gc_pc(I, st):
         keep.append(f)
     st.pc = keep
     I.ctx.__dict__["gc_dropped"] = I.ctx.__dict__.get("gc_dropped", 0) + dropped
+
+
+def int_preserving(body, name):
+    """Is every assignment to `name` inside the loop body syntactically integer valued?  (literal ints, name +/- int literal,
+    int(...), len(...), np.sum(mask), another name that is itself a loop counter).  Anything else makes the local a real."""
+    def is_int_expr(e):
+        if isinstance(e, ast.Constant):
+            return isinstance(e.value, int) and not isinstance(e.value, bool)
+        if isinstance(e, ast.Name):
+            return True if e.id == name else None       # unknown
+        if isinstance(e, ast.BinOp) and isinstance(e.op, (ast.Add, ast.Sub, ast.Mult, ast.FloorDiv, ast.Mod)):
+            a, b = is_int_expr(e.left), is_int_expr(e.right)
+            return (a is True or a is None) and (b is True or b is None) and not (a is None and b is None and False)
+        if isinstance(e, ast.Call):
+            f = e.func
+            if isinstance(f, ast.Name) and f.id in ("int", "len", "round") and (f.id != "round" or len(e.args) == 1):
+                return True
+            if isinstance(f, ast.Attribute) and f.attr in ("sum",) and e.args and isinstance(e.args[0], ast.Compare):
+                return True
+            return False
+        if isinstance(e, ast.Subscript):
+            return None
+        if isinstance(e, ast.UnaryOp) and isinstance(e.op, ast.USub):
+            return is_int_expr(e.operand)
+        return False
+    for stmt in body:
+        for n in ast.walk(stmt):
+            if isinstance(n, ast.Assign):
+                for t in n.targets:
+                    if isinstance(t, ast.Name) and t.id == name:
+                        r = is_int_expr(n.value)
+                        if r is False:
+                            return False
+                        if r is None and not isinstance(n.value, ast.Subscript):
+                            # a bare other name / unknown: be conservative unless it looks like an index computation
+                            if not (isinstance(n.value, ast.Name)):
+                                return False
+                    elif isinstance(t, (ast.Tuple, ast.List)) and any(isinstance(x, ast.Name) and x.id == name for x in t.elts):
+                        return False
+            elif isinstance(n, ast.AugAssign) and isinstance(n.target, ast.Name) and n.target.id == name:
+                r = is_int_expr(n.value)
+                if r is False or isinstance(n.op, ast.Div):
+                    return False
+    return True
 
 
 def _split_and(text):
